@@ -64,6 +64,13 @@ def wl_bloom_pairs(ctx, rng, case):
         compat_kind = "same"
         est2, rate2, m2, k2, hname2, hf2 = est, rate, m, k, hname, hf
         ctx.count("large_bloom_pairs_beyond_64KiB")
+    aligned = case.index % 20 == 9
+    if aligned:
+        # bit arrays whose length is an exact multiple of a power-of-two block size (512 bytes .. 64 KiB), filled densely
+        est, rate, m, k = gen.aligned_geometry(rng, max_len=140000)
+        compat_kind = "same"
+        est2, rate2, m2, k2, hname2, hf2 = est, rate, m, k, hname, hf
+        ctx.count("block_aligned_bloom_pairs")
     if case.index % 20 == 3 and compat_kind in ("same", "identical", "both_empty", "other_geometry"):
         # both operands share a strategy that is written for TEXT keys only (whatever key the library probes a strategy with, a
         # strategy is the same as itself); the universe is text only
@@ -134,7 +141,7 @@ def wl_bloom_pairs(ctx, rng, case):
                     db = db + [("combined-with-a",)]
                     if B0 is None or B0.elements_added < 0:
                         B0, db = bl.reachable_bloom(P, rng, est2, rate2, hf2, keys)
-            if m > 8 * 30000 and (m2, k2) == (m, k) and A0.elements_added >= 0 and B0.elements_added >= 0:
+            if (m > 8 * 30000 or aligned) and (m2, k2) == (m, k) and A0.elements_added >= 0 and B0.elements_added >= 0:
                 bl.dense_fill(rng, [[A0], [B0]], m, k)  # large arrays: most bytes carry a bit in each operand, so AND and OR are dense too
                 ctx.count("large_pairs_filled_densely")
             case.op("state_a", da)
@@ -408,5 +415,5 @@ PROP = Prop(
                  "'different hash function' pairs are two different strategies of the zoo (they differ on every key, including the library's probe key)",
                  "mixing a counting with a plain Bloom filter is outside the claim and not generated"],
     required=["compatible_pairs_checked", "incompatible_pairs_checked", "immutability_checks", "foreign_type_rejections", "identical_pairs_checked",
-              "hash_pairs_sharing_part_of_the_probe_hashes", "self_operand_checks", "aliasing_checks"],
+              "hash_pairs_sharing_part_of_the_probe_hashes", "self_operand_checks", "aliasing_checks", "block_aligned_bloom_pairs"],
 )
